@@ -50,7 +50,8 @@ PRED_SPECS = [(i, s, a) for i in (0, 1) for s in (0, 1) for a in (1, 2)]
 def universe(kind):
     if kind == 'predicates':
         from pytableaux.lang import Predicate
-        return [Predicate(*spec) for spec in PRED_SPECS]
+        # user predicates and the two system predicates (which are also known to a store by their names)
+        return [Predicate(*spec) for spec in PRED_SPECS] + [Predicate.Identity, Predicate.Existence]
     return UNIVERSE
 
 
@@ -306,8 +307,21 @@ class Sim:
                     except Exception as e:
                         out.append((f'C18|predicates|get', f'{tag}: get({ref!r}) raised {e!r} for member {p!r}'))
                         break
+            # membership by every published reference (spec, ident, coordinates, name) agrees with the sequence
             for p in self.U:
-                if p not in got:
+                for ref in p.refs:
+                    if p not in got and ref == p.bicoords:
+                        continue        # (index, subscript) is shared by the predicates of every arity on that symbol
+                    try:
+                        if (ref in c) != (p in got):
+                            out.append((f'C18|predicates|membership-by-ref', f'{tag}: ({ref!r} in c) = {ref in c} but {p!r} is '
+                                        f'{"a member" if p in got else "not a member"} (content {show(got)})'))
+                            break
+                    except Exception as e:
+                        out.append((f'C18|predicates|membership-by-ref-raises', f'{tag}: ({ref!r} in c) raised {e!r}'))
+                        break
+            for p in self.U:
+                if p not in got and not p.is_system:        # get() falls back to the system predicates by design
                     for ref in (p.spec, p.bicoords):
                         try:
                             r = c.get(ref)
@@ -395,7 +409,7 @@ def run_ops(kind, ops):
 
 def make_machine(kind, acc):
     idx = st.integers(-7, 7)
-    v = st.integers(0, 5) if kind != 'predicates' else st.integers(0, 7)
+    v = st.integers(0, 5) if kind != 'predicates' else st.integers(0, 9)
     vals = st.lists(v, max_size=4)
     sl = st.tuples(st.one_of(st.none(), st.integers(-6, 6)), st.one_of(st.none(), st.integers(-6, 6)),
                    st.sampled_from([None, None, 1, 2, -1, -2, 3]))
